@@ -104,9 +104,11 @@ fn run_kp<K: Kmer + Send + Sync + 'static, P: Kmer + 'static>(c: &Case, rec: &mu
     let order = Arc::new(order);
     let sh = Arc::new(Mutex::new(Shared::default()));
     let stranded = c.stranded;
+    let slog: Option<crate::c19::ScheduleLog> = if rec.recording() { Some(Arc::new(Mutex::new(Vec::new()))) } else { None };
     {
         let (built, order, sh) = (built.clone(), order.clone(), sh.clone());
-        run_batch(&c.sched, c.sched_seed, c.executions, move || {
+        let (sched, seed, n, sl) = (c.sched.clone(), c.sched_seed, c.executions, slog.clone());
+        let r = simcore::driver::guarded(move || run_batch(&sched, seed, n, sl, move || {
             rayon::reset_interleaving();
             let warm = shuttle::thread::spawn(|| shuttle::thread::yield_now());
             shuttle::thread::yield_now();
@@ -126,7 +128,13 @@ fn run_kp<K: Kmer + Send + Sync + 'static, P: Kmer + 'static>(c: &Case, rec: &mu
                     s.violation = Some(Violation::new(class, "combine -> finish -> compress_graph under a schedule vs one-pass", format!("A = sharded under schedule, B = one pass: {}", detail)));
                 }
             }
-        });
+        }));
+        if let Some(l) = &slog {
+            crate::c19::note_schedules(rec, l);
+        }
+        if let Err((loc, msg)) = r {
+            return Err(Violation::new("panic", &loc, format!("uncaught panic at {}: {}", loc, msg.chars().take(300).collect::<String>())));
+        }
     }
     let s = sh.lock().unwrap();
     rec.add("executions", s.executions);
